@@ -721,6 +721,57 @@ def run(tier, rep):
             by_id[rid] = ({"id": rid, "cores": list(st)}, r)
             link_n += 1
     rep.coverage["link_sets"] = link_n
+    # ---- E3 stale histories: a diamond (Main -> {Base, Mid}, Mid -> Base) is built, Base's interface is edited in a way that breaks
+    # what its dependents were compiled against (a variant removed / variants reordered / a field retyped / a signature changed /
+    # a function removed), every subset of the packages is rebuilt in dependency order (a rebuild may be refused), then everything
+    # is linked.  Whatever link does with cores built against another Base, it must answer - a stale core that gets past the hash
+    # comparison reaches the back end with indices and names of a definition that no longer exists.
+    sroot = workdir("c04-stale")
+    base0 = ("package Base\n\nenum Shape { Circle(int32), Square(int32), Tri(int32) }\nstruct P { x: int32, y: int32 }\n"
+             "fn area(s: Shape) -> int32 { match s { Shape::Circle(r) => r * r * 3, Shape::Square(a) => a * a, Shape::Tri(a) => a } }\n"
+             "fn base_f(x: int32) -> int32 { x + 1 }\nfn extra(x: int32) -> int32 { x * 2 }\nfn mk(x: int32) -> P { P { x: x, y: 0 } }\n")
+    stale_edits = {
+        "variant-removed": base0.replace(", Tri(int32)", "").replace(", Shape::Tri(a) => a", ""),
+        "variants-reordered": base0.replace("Circle(int32), Square(int32), Tri(int32)", "Tri(int32), Circle(int32), Square(int32)"),
+        "field-retyped": base0.replace("struct P { x: int32, y: int32 }", "struct P { x: string, y: int32 }").replace("P { x: x, y: 0 }", "P { x: int32_to_string(x), y: 0 }"),
+        "signature-changed": base0.replace("fn base_f(x: int32) -> int32 { x + 1 }", "fn base_f(x: int32, k: int32) -> int32 { x + k }"),
+        "function-removed": base0.replace("fn extra(x: int32) -> int32 { x * 2 }\n", ""),
+    }
+    ssrc = {"Base": base0,
+            "Mid": "package Mid\nimport Base\n\nfn mid_f(x: int32) -> int32 { Base::area(Base::Shape::Tri(x)) + Base::base_f(x) + Base::extra(x) + Base::mk(x).x }\n"
+                   "fn pick(s: Base::Shape) -> int32 { match s { Base::Shape::Circle(r) => r, Base::Shape::Square(a) => a + 1, Base::Shape::Tri(t) => t + 2 } }\n",
+            "Main": "package Main\nimport Base\nimport Mid\n\nfn main() {\n    let _ = string_println(int32_to_string(Mid::mid_f(2) + Mid::pick(Base::Shape::Square(3)) + Base::base_f(1)));\n    ()\n}\n"}
+    stale_n = 0
+    import itertools
+    for ename, etext in stale_edits.items():
+        for k in range(4):
+            for sub in itertools.combinations(("Base", "Mid", "Main"), k):
+                tag = f"{ename}:rebuilt={'+'.join(sub) or 'none'}"
+                pr = f"{sroot}/{ename}-{'-'.join(sub) or 'none'}"
+                os.makedirs(pr + "/src", exist_ok=True)
+                bld = lambda n_: cli_run(["build", "--package", n_, "--input", f"{pr}/src/{n_}.gom", "--interface-path", f"{pr}/out", "--output", f"{pr}/out/{n_}"])
+                ok0 = True
+                for n_ in ("Base", "Mid", "Main"):
+                    open(f"{pr}/src/{n_}.gom", "w").write(ssrc[n_])
+                    ok0 = ok0 and bld(n_)["verdict"] == "ok"
+                if not ok0:
+                    raise ToolError("stale-history family: the initial build of the diamond failed")
+                open(f"{pr}/src/Base.gom", "w").write(etext)
+                for n_ in sub:
+                    r = bld(n_)
+                    rid = f"stale-build#{tag}:{n_}"
+                    classes["stale-build:" + r["verdict"]] += 1
+                    records.append(cli_record(rid, "build", r))
+                    by_id[rid] = ({"id": rid, "edit": ename, "rebuilt": list(sub), "source_of_Base": etext}, r)
+                r = cli_run(["link", "--input"] + [f"{pr}/out/{n_}.core" for n_ in ("Base", "Mid", "Main")] + ["--output", f"{pr}/out/main.go"])
+                rid = f"stale-link#{tag}"
+                classes["stale-link:" + r["verdict"]] += 1
+                records.append(cli_record(rid, "link", r))
+                by_id[rid] = ({"id": rid, "edit": ename, "rebuilt": list(sub), "source_of_Base": etext}, r)
+                stale_n += 1
+    if classes["stale-link:rejected"] < 10 or classes["stale-link:ok"] < 3:
+        raise ToolError(f"vacuity: stale-history family: {dict((k, v) for k, v in classes.items() if k.startswith('stale-'))}")
+    rep.coverage["stale_histories"] = stale_n
     # ---- validate every outcome against the contract
     d = workdir("c04-trace")
     chunks = [records[i:i + 40000] for i in range(0, len(records), 40000)]
